@@ -70,7 +70,7 @@ def run(tier, v):
     wd = vlib.workdir(PID)
     vlib.build_harness()
     K = set(vlib.known_devs(PID))
-    fams = ["ver", "presence", "perm", "grease", "sizes", "misc", "embed", "alpn", "lookalike", "recver"]
+    fams = ["ver", "presence", "perm", "grease", "sizes", "big", "misc", "embed", "alpn", "lookalike", "recver"]
     n = n_nontriv = states = trans = 0
     samples = []
     for fam in fams:
@@ -105,6 +105,14 @@ def run(tier, v):
                     continue
                 sig = o["sig"]
             bad = mismatch(e["exp"], sig, H)
+            if via == "packet" and not bad:
+                # the rendered report the caller can print: every field line carries the full string (nothing cut, nothing else)
+                want = expected_strings(e["exp"], H)
+                rep = dict((x.split(":", 1)[0].strip(), x.split(":", 1)[1].strip()) for x in po["out"]["line"].split("\n")[1:] if ":" in x)
+                for lab, val in (("SNI", (e["exp"]["sni"] or ["none"])[0]), ("Version", "TLS " + e["exp"]["ver"]), ("JA4", want["ja4"]["full"]), ("JA4_r", want["ja4"]["raw"]),
+                                 ("JA4_o", want["ja4o"]["full"]), ("JA4_or", want["ja4o"]["raw"])):
+                    if rep.get(lab) != val:
+                        bad.append("report line `%s:` %r, specified %r" % (lab, (rep.get(lab) or "")[:80] + ("..." if len(rep.get(lab) or "") > 80 else ""), val[:80] + ("..." if len(val) > 80 else "")))
             n_nontriv += 1
             if not bad:
                 if len(samples) < 3 and n % 131 == 1:
